@@ -277,7 +277,7 @@ def rastrigin_skew(individual):
     .. math::
 
        f_{\text{RastSkew}}(\mathbf{x}) =
-       10N + \sum_{i=1}^N \left(y_i^2 - 10 \cos(2\pi x_i)\right)
+       10N + \sum_{i=1}^N \left(y_i^2 - 10 \cos(2\pi y_i)\right)
 
     .. math::
 
